@@ -319,7 +319,11 @@ func (c c09Case) script() string {
 	if c.Opt > 0 && !c.Nil {
 		fmt.Fprintf(&sb, "  let inner: AnyStruct = %s\n  log(inner.getType().isSubtype(of: Type<%s>()))\n", c.Value.Expr, T)
 	}
-	fmt.Fprintf(&sb, "  if c {\n    log(v)\n    log((v as? %s)!)\n  }\n", T)
+	fmt.Fprintf(&sb, "  if c {\n    log(v)\n    log((v as? %s)!)\n    log(v.getType())\n    log(((v as? %s)!).getType())\n", T, T)
+	if c.Opt > 0 && !c.Nil {
+		sb.WriteString("    log(inner.getType())\n")
+	}
+	sb.WriteString("  }\n")
 	for _, d := range destroys {
 		// resources are destroyed before the force cast may abort; references to them are not used afterwards
 		_ = d
@@ -337,6 +341,8 @@ type c09Obs struct {
 	C, I, S   string
 	SInner    string
 	Same      string // "" (not evaluated) | "true" | "false": log(v) == log(casted)
+	// run-time types (as logged) of v, of the cast result and of the unwrapped inner value
+	VType, BackType, InnerType string
 	Forced    bool   // the force cast did not abort
 	AbortRoot string
 	Raw       []string
@@ -350,7 +356,7 @@ func c09Observe(c c09Case, e host.Engine) c09Obs {
 	ci := host.Classify(res)
 	o := c09Obs{Raw: res.Logs, Class: ci.Class, AbortRoot: ci.Root}
 	if res.Err != nil {
-		o.Err = firstLine(res.Err.Error(), 500)
+		o.Err = firstLine(safeErrString(res.Err), 500)
 	}
 	logs := res.Logs
 	take := func() string {
@@ -375,6 +381,10 @@ func c09Observe(c c09Case, e host.Engine) c09Obs {
 		if o.C == "true" {
 			a, b := take(), take()
 			o.Same = fmt.Sprint(a == b)
+			o.VType, o.BackType = take(), take()
+			if c.Opt > 0 && !c.Nil {
+				o.InnerType = take()
+			}
 		}
 	}
 	o.Forced = len(logs) > 0 && logs[len(logs)-1] == `"forced"`
@@ -431,6 +441,9 @@ func c09Judge(c c09Case, o c09Obs) (string, string) {
 		if o.Same == "false" {
 			return fmt.Sprintf("successful cast changed the value: %q", o.Raw), ""
 		}
+		if o.C == "true" && !c.Resource && !strings.HasSuffix(c.Target, "?") && o.VType != o.BackType {
+			return fmt.Sprintf("successful cast changed the run-time type: %s -> %s", o.VType, o.BackType), ""
+		}
 		return "", ""
 	}
 	// optional values: casts unwrap first unless the target is AnyStruct/AnyResource (or an optional of them)
@@ -439,9 +452,15 @@ func c09Judge(c c09Case, o c09Obs) (string, string) {
 		if o.C != o.S {
 			return fmt.Sprintf("optional value, target %s keeps optionals: as?=%s but run-time subtype=%s", c.Target, o.C, o.S), ""
 		}
+		if o.C == "true" && !c.Resource && !strings.HasSuffix(c.Target, "?") && o.BackType != o.VType {
+			return fmt.Sprintf("target %s keeps optionals but the cast result has run-time type %s, the value %s", c.Target, o.BackType, o.VType), ""
+		}
 	default:
 		if o.C != o.SInner {
 			return fmt.Sprintf("optional value is unwrapped before the cast: as?=%s but unwrapped value's run-time subtype=%s", o.C, o.SInner), refRoot
+		}
+		if o.C == "true" && !c.Resource && !strings.HasSuffix(c.Target, "?") && o.BackType != o.InnerType {
+			return fmt.Sprintf("cast of an optional value to %s yields run-time type %s, the unwrapped value has %s", c.Target, o.BackType, o.InnerType), ""
 		}
 	}
 	return "", ""
@@ -493,7 +512,7 @@ func TestC09(t *testing.T) {
 		if mi != "" || mv != "" {
 			rec.Excluded(fi + fv[len(fv)*btoi(fi != ""):])
 		}
-		if oi.C != ov.C || oi.I != ov.I || oi.S != ov.S || oi.SInner != ov.SInner || oi.Forced != ov.Forced || oi.Same != ov.Same {
+		if oi.C != ov.C || oi.I != ov.I || oi.S != ov.S || oi.SInner != ov.SInner || oi.Forced != ov.Forced || oi.Same != ov.Same || oi.BackType != ov.BackType {
 			return fmt.Sprintf("engines disagree: interpreter %+v vs vm %+v", oi, ov), nontrivial
 		}
 		return "", nontrivial
